@@ -83,6 +83,116 @@ def framing_judge(ctx, recs, tag):
                       {'kind': 'framing', 'rec': rec, 'rejected_at': lno})
 
 
+# ------------------------------------------------------------------ the real transports (loopback sockets, real event loop)
+class NoSockets(Exception):
+    pass
+
+
+def run_real(kind, stream, chunk, ending):
+    """UnixFace / TcpFace connected to an in-process server that writes `stream` in chunks of `chunk` bytes and then ends the
+    connection: 'eof' = orderly close, 'reset' = abort (RST / connection lost with an error) after the last chunk.
+    Only the final state is observable here (no control over when the reader runs), so the execution is judged as the
+    reduced trace  FeedEof, End  (eof) of FramingTrace; after a reset whatever was buffered may be lost, so the trace is
+    taken over the bytes of the packets that were delivered, plus the checks made here: run() returns, the face stops."""
+    import tempfile
+    from ndn.transport.stream_face import UnixFace, TcpFace
+    got, errs = [], []
+
+    async def main():
+        async def cb(typ, buf):
+            got.append((typ, bytes(buf)))
+
+        async def serve(reader, writer):
+            for i in range(0, len(stream), chunk):
+                writer.write(stream[i:i + chunk])
+                await writer.drain()
+                await aio.sleep(0)
+            if ending == 'reset':
+                # SO_LINGER 0: the close sends RST (TCP) - the client's read fails with ConnectionResetError
+                import socket, struct
+                sock = writer.get_extra_info('socket')
+                if kind == 'tcp' and sock is not None:
+                    sock.setsockopt(socket.SOL_SOCKET, socket.SO_LINGER, struct.pack('ii', 1, 0))
+                writer.transport.abort()
+            else:
+                writer.close()
+        aio.get_running_loop().set_exception_handler(lambda loop, c: errs.append(c))
+        try:
+            if kind == 'unix':
+                d = tempfile.mkdtemp(prefix='c06s', dir=tlc.BUILD)
+                path = os.path.join(d, 's')
+                srv = await aio.start_unix_server(serve, path)
+                face = UnixFace(path)
+            else:
+                srv = await aio.start_server(serve, '127.0.0.1', 0)
+                face = TcpFace('127.0.0.1', srv.sockets[0].getsockname()[1])
+        except OSError as ex:
+            raise NoSockets(str(ex))          # the harness' own server could not be set up: environment, not library
+        face.callback = cb
+        await face.open()
+        res = 'returned'
+        try:
+            await aio.wait_for(face.run(), 20)
+        except aio.TimeoutError:
+            res = 'did-not-stop'
+        except Exception as ex:  # noqa
+            res = 'raised:' + type(ex).__name__
+        for _ in range(5):
+            await aio.sleep(0)          # the per-packet callback tasks
+        srv.close()
+        return res, bool(face.running)
+    res, running = aio.run(main())
+    base = stream if ending == 'eof' else b''.join(b for _, b in got)
+    dl, off = [], 0
+    for typ, buf in got:
+        ok = base[off:off + len(buf)] == buf
+        dl.append({'typ': typ if ok else -1, 's': off + 1, 'e': off + len(buf)})
+        off += len(buf)
+    first = {'a': 'FeedEof' if len(base) else 'Eof', 'pre': {'delivered': [], 'running': True, 'errs': 0}}
+    rec = {'stream': list(base), 'ev': [first, {'a': 'End', 'pre': {'delivered': dl, 'running': running, 'errs': len(errs)}}],
+           'real': {'kind': kind, 'chunk': chunk, 'ending': ending, 'stream': stream.hex()}}
+    bad = None
+    if res != 'returned':
+        bad = 'run() %s' % res
+    elif errs:
+        bad = 'background error %r' % (errs[0].get('exception') or errs[0].get('message'),)
+    elif ending == 'reset' and not stream.startswith(base):
+        bad = 'delivered packets are not a prefix of the stream'
+    return rec, bad
+
+
+def real_transports(ctx):
+    pk = [mk_pkt(6, 3), mk_pkt(5, 0), mk_pkt(100, 260, lform=3), mk_pkt(6, 1, tform=3), mk_pkt(0x64, 0), mk_pkt(6, 40, lform=5)]
+    recs = []
+    skipped = set()
+    for kind in ('unix', 'tcp'):
+        for n, (seqn, cut) in enumerate([((0, 1, 2), 0), ((1, 4), 0), ((2, 0), 2), ((3, 5, 0), 5), ((), 0), ((0,), 1),
+                                         ((4, 4, 1), 0), ((5, 2, 3), 130)][:ctx.pick(5, 8)]):
+            full = b''.join(pk[i] for i in seqn)
+            stream = full[:len(full) - cut] if cut else full
+            for chunk in ctx.pick((1, 7, 4096), (1, 2, 7, 64, 4096)):
+                for ending in ('eof', 'reset'):
+                    if kind in skipped:
+                        continue
+                    try:
+                        rec, bad = run_real(kind, stream, chunk, ending)
+                    except NoSockets as ex:
+                        ctx.note('real transports: no loopback %s sockets in this environment (%s) - stage skipped' % (kind, ex))
+                        ctx.assumptions.append('real-transport stage skipped for %s: no loopback sockets' % kind)
+                        skipped.add(kind)
+                        continue
+                    ctx.traces += 1
+                    ctx.evaluations += 1
+                    ctx.nt(['real', kind, n, chunk, ending])
+                    if bad:
+                        ctx.violation('C06/%s/real-%s/%s' % ('UnixFace' if kind == 'unix' else 'TcpFace', ending, bad.split(' ')[0] + '-' + bad.split(' ')[1].split(':')[0]),
+                                      '%s over a loopback socket, chunks of %d, %s: %s' % (kind, chunk, ending, bad),
+                                      {'kind': 'framing', 'rec': rec})
+                    recs.append(rec)
+    framing_judge(ctx, recs, 'real')
+    ctx.note('real transports: %d executions of UnixFace / TcpFace over loopback sockets judged by FramingTrace' % len(recs))
+
+
 def mk_pkt(typ, vlen, tform=None, lform=None, fill=0xAB):
     def num(n, form):
         if form is None or form == 1 or form < st.var_size(n):
@@ -376,9 +486,11 @@ def run(ctx):
                 '(single-byte edits, truncations with/without consistent framing, structural oddities, fragments, random bytes) '
                 'delivered in random pipeline states of both front-ends (NdnPit / NdnFib RecvJunk) and to the datagram handler. '
                 'non-trivial = distinct (stream, chunking) with >=2 chunks, or distinct schedule with junk and >=3 events')
-    ctx.assumptions = ['virtual-time loop; real asyncio.StreamReader', 'junk seeds name /zz/... which no schedule expresses or attaches',
+    ctx.assumptions = ['virtual-time loop; real asyncio.StreamReader', 'loopback sockets (AF_UNIX, 127.0.0.1) are available for the real-transport stage', 'junk seeds name /zz/... which no schedule expresses or attaches',
                        'mutants of addressed packets are used only when the strict reader finds them structurally malformed']
     framing(ctx)
+    if 'B' in ctx.stages:
+        real_transports(ctx)
     robustness(ctx)
 
 
@@ -388,7 +500,11 @@ def replay(ctx, path):
     if obj.get('kind') == 'framing':
         rec = obj['rec']
         evs = [{k: v for k, v in e.items() if k != 'pre'} for e in rec['ev'] if e['a'] != 'End']
-        rec2, bad = run_stream(bytes(rec['stream']), evs)
+        if 'real' in rec:
+            r = rec['real']
+            rec2, bad = run_real(r['kind'], bytes.fromhex(r['stream']), r['chunk'], r['ending'])
+        else:
+            rec2, bad = run_stream(bytes(rec['stream']), evs)
         rej = judge.validate(ctx, 'FramingTrace', os.path.join(tlc.SPEC, 'FramingTrace.cfg'), [rec2], 'replay')
         print('re-executed: %s %s' % ('REJECTED' if rej or bad else 'accepted', bad or ''))
         return 1 if rej or bad else 0
